@@ -130,10 +130,29 @@ class Impl:
                 self.groups[gid] = groups.IntegerGroup(p=int(ws[3]), q=int(ws[4]), g=int(ws[5]))
             elif ws[2] == "ed":
                 self.groups[gid] = ed25519_group.Ed25519Group
+            elif ws[2] == "pub":
+                self.groups[gid] = {"ed": ed25519_group.Ed25519Group, "1024": groups.I1024,
+                                    "2048": groups.I2048, "3072": groups.I3072}[ws[3]]
             elif ws[2] == "edtoy":
                 self.groups[gid] = make_toy_ed_module(*[int(x) for x in ws[3:9]])
             else:
                 return "bad-op"
+            return "ok"
+        if op == "params" and ws[2] == "shipped":
+            from spake2.parameters import all as pall
+            self.params[int(ws[1])] = {"ed": pall.ParamsEd25519, "1024": pall.Params1024,
+                                       "2048": pall.Params2048, "3072": pall.Params3072}[ws[3]]
+            return "ok"
+        if op == "newdef":
+            sid, side = int(ws[1]), ws[2]
+            pw, idA, idB, ent = (unhx(x) for x in ws[3:7])
+            e = Entropy(ent)
+            if side == "S":
+                s = sp.SPAKE2_Symmetric(pw, idSymmetric=idA, entropy_f=e)
+            else:
+                s = KL[side](pw, idA=idA, idB=idB, entropy_f=e)
+            self.sessions[sid] = s
+            self.entropies[sid] = e
             return "ok"
         if op == "params":
             pid, gid = int(ws[1]), int(ws[2])
@@ -169,6 +188,12 @@ class Impl:
             b = lambda v: "true" if v else "false"
             return "st %s %s %s %s %d" % (b(s._started), b(s._finished), "none" if sc is None else sc,
                                           "none" if ob is None else hx(ob), s.pw_scalar)
+        if op == "entleft":
+            e = self.entropies[int(ws[1])]
+            return "ok %d" % (0 if e is None else len(e.stream) - e.pos)
+        if op == "entreq":
+            e = self.entropies[int(ws[1])]
+            return "ok " + ("none" if e is None else ",".join(str(x) for x in e.requests) or "-")
         if op == "hashparams":
             return "ok " + s_hex(self.sessions[int(ws[1])].hash_params())
         if op == "sizebits":
